@@ -2063,9 +2063,18 @@ int yr_re_exec(
         break;
 
       case ACTION_CONTINUE:
+        // _yr_re_fiber_sync can kill the fiber it is given: a fiber that
+        // comes back to a split it has already executed, as in ^(a{0})+
+        // where the split of the + jumps to itself. The fibers created from
+        // it are inserted right after it, so continue with whatever fiber
+        // follows the previous one instead of using a dead fiber.
+        next_fiber = fiber->prev;
+
         FAIL_ON_ERROR_WITH_CLEANUP(
             _yr_re_fiber_sync(&fibers, &context->re_fiber_pool, fiber),
             _yr_re_fiber_kill_all(&fibers, &context->re_fiber_pool));
+
+        fiber = (next_fiber != NULL) ? next_fiber->next : fibers.head;
         break;
 
       default:
